@@ -299,6 +299,9 @@ Record PInv (s : state) : Prop := {
 
 (* ------------------------------------------------------------------------------------------------ *)
 
+Ltac rlia := unfold result in *; lia.
+Ltac fin := unfold result in *; match goal with |- ?a = _ => let A := fresh "A" in set (A := a) in *; clearbody A; lia end.
+
 Lemma step_cnt : forall s l s',
   Forall wok (ws s) -> got_ok s -> step cfg s l s' -> forall x, total x s' = total x s.
 Proof.
@@ -308,30 +311,30 @@ Proof.
                  | s r Hpc Hg Htol Hf | s Hpc Hg | s Hpc Hb | s Hpc Hb].
   - pose proof (total_set_w s i w (wset w (Busy y) (w_k w) (w_out w)) q (doneq s) x Hn) as T.
     unfold outids, busy1, wset in *; simpl in T. rewrite Hst, Htq in T. simpl in T.
-    destruct (Nat.eq_dec y x); lia.
+    destruct (Nat.eq_dec y x); fin.
   - pose proof (total_set_w s i w (wset w (Dying C0) (w_k w) (w_out w)) q (doneq s) x Hn) as T.
-    unfold outids, busy1, wset in *; simpl in T. rewrite Hst, Htq in T. simpl in T. lia.
+    unfold outids, busy1, wset in *; simpl in T. rewrite Hst, Htq in T. simpl in T. fin.
   - match goal with |- total x (set_w s i ?w' ?tq ?dq) = _ =>
                     pose proof (total_set_w s i w w' tq dq x Hn) as T end.
     unfold outids, busy1, wset in *; simpl in T. rewrite Hst in T.
     rewrite map_app, cnt_app in T. simpl in T.
-    destruct (retire_now (c_max cfg) (S (w_k w))); simpl in T; destruct (Nat.eq_dec y x); lia.
+    destruct (retire_now (c_max cfg) (S (w_k w))); simpl in T; destruct (Nat.eq_dec y x); fin.
   - match goal with |- total x (set_w s i ?w' ?tq ?dq) = _ =>
                     pose proof (total_set_w s i w w' tq dq x Hn) as T end.
     unfold outids, busy1, wset in *; simpl in T. rewrite Ho in T.
-    rewrite map_app, cnt_app in T. simpl in T. destruct (Nat.eq_dec (fst r) x); lia.
+    rewrite map_app, cnt_app in T. simpl in T. destruct (Nat.eq_dec (fst r) x); fin.
   - match goal with |- total x (set_w s i ?w' ?tq ?dq) = _ =>
                     pose proof (total_set_w s i w w' tq dq x Hn) as T end.
-    unfold outids, busy1, wset in *; simpl in T. rewrite Hst in T. lia.
+    unfold outids, busy1, wset in *; simpl in T. rewrite Hst in T. simpl in T. fin.
   - rewrite Hpc in HG. unfold total, set_p; simpl. rewrite HG, Hdq. simpl.
-    destruct (Nat.eq_dec (fst r) x); lia.
-  - rewrite Hpc in HG. unfold total, set_p; simpl. rewrite HG, Hdq. simpl. lia.
+    destruct (Nat.eq_dec (fst r) x); rlia.
+  - rewrite Hpc in HG. unfold total, set_p; simpl. rewrite HG, Hdq. simpl. rlia.
   - unfold total, set_p; simpl.
     rewrite (flat_map_map_Forall _ _ outids reap_w), (flat_map_map_Forall _ _ busy1 reap_w); auto.
     + apply Forall_forall; intros w _. unfold busy1. rewrite reap_w_st. reflexivity.
     + apply Forall_forall; intros w _. unfold outids. rewrite reap_w_out. reflexivity.
   - unfold total, set_p; simpl. rewrite Hg. rewrite map_app, cnt_app. simpl.
-    destruct (Nat.eq_dec (fst r) x); lia.
+    destruct (Nat.eq_dec (fst r) x); rlia.
   - reflexivity.
   - unfold total, set_p; simpl. rewrite Hg. reflexivity.
   - reflexivity.
@@ -339,4 +342,570 @@ Proof.
     rewrite (flat_map_map_Forall _ _ outids restart_w), (flat_map_map_Forall _ _ busy1 restart_w); auto.
     + eapply Forall_impl; [|exact HW]. intros w Hw. apply restart_w_busy1; auto.
     + eapply Forall_impl; [|exact HW]. intros w Hw. apply restart_w_outids; auto.
+Qed.
+
+Notation payP := (fun r : nat * val => snd r = c_f cfg (fst r)).
+
+Lemma pay_split : forall s,
+  pay_ok s <-> Forall payP (delivered s) /\ Forall payP (got_list (got s)) /\
+               Forall payP (doneq s) /\ Forall payP (flat_map w_out (ws s)).
+Proof.
+  intros s. unfold pay_ok, in_flight, outbox_results. rewrite !Forall_app. tauto.
+Qed.
+
+Lemma step_pay : forall s l s', Forall wok (ws s) -> pay_ok s -> step cfg s l s' -> pay_ok s'.
+Proof.
+  intros s l s' HW HP HS. apply pay_split in HP. destruct HP as (Pd & Pg & Pq & Po). apply pay_split.
+  destruct HS as [s i w y q Hn Hst Htq | s i w q Hn Hst Htq | s i w y Hn Hst | s i w r o Hn Ho
+                 | s i w c Hn Hst Hex | s r q Hpc Hdq | s Hpc Hdq | s obs Hpc | s r Hpc Hg Hok
+                 | s r Hpc Hg Htol Hf | s Hpc Hg | s Hpc Hb | s Hpc Hb]; simpl.
+  - repeat split; auto. apply Forall_flat_upd; auto. simpl. eapply Forall_flat_nth; eauto.
+  - repeat split; auto. apply Forall_flat_upd; auto. simpl. eapply Forall_flat_nth; eauto.
+  - repeat split; auto. apply Forall_flat_upd; auto. simpl. apply Forall_app; split.
+    + eapply Forall_flat_nth; eauto.
+    + constructor; auto.
+  - pose proof (Forall_flat_nth _ _ _ _ _ _ _ Po Hn) as Pw. rewrite Ho in Pw. inversion Pw; subst.
+    repeat split; auto.
+    + apply Forall_app; split; auto.
+    + apply Forall_flat_upd; auto.
+  - repeat split; auto. apply Forall_flat_upd; auto. simpl. eapply Forall_flat_nth; eauto.
+  - rewrite Hdq in Pq. inversion Pq; subst. repeat split; auto.
+  - repeat split; auto.
+  - repeat split; auto. rewrite (flat_map_map_Forall _ _ w_out reap_w); auto.
+    apply Forall_forall; intros w _. apply reap_w_out.
+  - rewrite Hg in Pg. simpl in Pg. inversion Pg; subst. repeat split; auto.
+    apply Forall_app; split; auto.
+  - repeat split; auto.
+  - repeat split; auto.
+  - repeat split; auto.
+  - repeat split; auto. rewrite (flat_map_map_Forall _ _ w_out restart_w); auto.
+    eapply Forall_impl; [|exact HW]. intros w Hw. apply restart_w_outres; auto.
+Qed.
+
+Lemma wok_reap : forall w, wok w -> wok (reap_w w).
+Proof.
+  intros w (H1 & H2 & H3). unfold reap_w, wok.
+  destruct (w_in w) eqn:Ein; destruct (w_st w) as [| y | c | [|]] eqn:Est; simpl;
+    rewrite ?Ein, ?Est; repeat split; intros; try discriminate; try congruence; eauto;
+    try (destruct H2 as [E1 E2]; auto; congruence).
+Qed.
+
+Lemma wok_restart : forall w, wok w -> wok (restart_w w).
+Proof.
+  intros w Hw. unfold restart_w. destruct (w_ret w); auto.
+  repeat split; simpl; intros; discriminate.
+Qed.
+
+Lemma step_w : forall s l s', Forall wok (ws s) -> step cfg s l s' -> Forall wok (ws s').
+Proof.
+  intros s l s' HW HS.
+  destruct HS as [s i w y q Hn Hst Htq | s i w q Hn Hst Htq | s i w y Hn Hst | s i w r o Hn Ho
+                 | s i w c Hn Hst Hex | s r q Hpc Hdq | s Hpc Hdq | s obs Hpc | s r Hpc Hg Hok
+                 | s r Hpc Hg Htol Hf | s Hpc Hg | s Hpc Hb | s Hpc Hb]; simpl; auto;
+    try (pose proof (Forall_nth_error _ _ _ _ _ HW Hn) as (H1 & H2 & H3); apply Forall_upd; auto;
+         unfold wok, wset; simpl).
+  - repeat split; intros; try discriminate.
+    + destruct (H2 H) as [E _]; congruence.
+    + destruct (H2 H) as [_ E]; auto.
+    + specialize (H3 H); congruence.
+  - repeat split; intros; try discriminate.
+    + destruct (H2 H) as [E _]; congruence.
+    + destruct (H2 H) as [_ E]; auto.
+    + specialize (H3 H); congruence.
+  - repeat split; intros.
+    + destruct (retire_now (c_max cfg) (S (w_k w))); discriminate.
+    + destruct (H2 H) as [E _]; congruence.
+    + destruct (H2 H) as [_ E]; auto.
+    + specialize (H3 H); congruence.
+  - repeat split; intros.
+    + rewrite (H1 _ H) in Ho. discriminate.
+    + destruct (H2 H) as [E _]; auto.
+    + destruct (H2 H) as [_ E]; auto.
+    + auto.
+  - repeat split; intros.
+    + apply put_before_exit; auto.
+    + destruct (H2 H) as [E _]; congruence.
+    + destruct (H2 H) as [_ E]; auto.
+    + specialize (H3 H); congruence.
+  - apply Forall_map. eapply Forall_impl; [|exact HW]. apply wok_reap.
+  - apply Forall_map. eapply Forall_impl; [|exact HW]. apply wok_restart.
+Qed.
+
+Lemma step_got : forall s l s', got_ok s -> step cfg s l s' -> got_ok s'.
+Proof.
+  intros s l s' HG HS. unfold got_ok in *.
+  destruct HS as [s i w y q Hn Hst Htq | s i w q Hn Hst Htq | s i w y Hn Hst | s i w r o Hn Ho
+                 | s i w c Hn Hst Hex | s r q Hpc Hdq | s Hpc Hdq | s obs Hpc | s r Hpc Hg Hok
+                 | s r Hpc Hg Htol Hf | s Hpc Hg | s Hpc Hb | s Hpc Hb]; simpl; auto.
+  - exists r. auto.
+  - rewrite Hpc in HG. auto.
+  - rewrite Hpc in HG. auto.
+Qed.
+
+Lemma tq_upd_same : forall l i w w',
+  nth_error l i = Some w -> owes w' = owes w ->
+  owing (upd l i w') = owing l /\ forallb owes (upd l i w') = forallb owes l.
+Proof.
+  intros l i w w' Hn E. split.
+  - pose proof (owing_upd l i w w' Hn) as H. rewrite E in H. lia.
+  - eapply forallb_upd_same; eauto.
+Qed.
+
+Lemma forallb_map_Forall : forall A (p : A -> bool) (f : A -> A) (l : list A),
+  Forall (fun w => p (f w) = p w) l -> forallb p (map f l) = forallb p l.
+Proof.
+  induction l as [|h t IH]; simpl; intros H; auto.
+  inversion H as [|? ? Hh Ht]; subst. rewrite Hh, IH; auto.
+Qed.
+
+Lemma owes_reap : forall w, owes (reap_w w) = owes w.
+Proof. intros w. unfold owes. rewrite reap_w_st. reflexivity. Qed.
+
+Lemma owes_restart : forall w, wok w -> owes (restart_w w) = owes w.
+Proof.
+  intros w (_ & _ & H3). unfold restart_w. destruct (w_ret w) eqn:E; auto.
+  unfold owes. rewrite (H3 eq_refl). reflexivity.
+Qed.
+
+Lemma map_nil_iff : forall A B (f : A -> B) l, map f l = [] <-> l = [].
+Proof. destruct l; simpl; split; intros; auto; discriminate. Qed.
+
+Lemma step_tq : forall s l s', Forall wok (ws s) -> tq_ok s -> step cfg s l s' -> tq_ok s'.
+Proof.
+  intros s l s' HW (pend & Hq & Hp) HS. unfold tq_ok.
+  destruct HS as [s i w y q Hn Hst Htq | s i w q Hn Hst Htq | s i w y Hn Hst | s i w r o Hn Ho
+                 | s i w c Hn Hst Hex | s r q Hpc Hdq | s Hpc Hdq | s obs Hpc | s r Hpc Hg Hok
+                 | s r Hpc Hg Htol Hf | s Hpc Hg | s Hpc Hb | s Hpc Hb]; simpl;
+    try (exists pend; split; [exact Hq | exact Hp]).
+  - rewrite Htq in Hq. symmetry in Hq. apply tq_head_inv in Hq. destruct Hq as (pend' & -> & ->).
+    destruct (tq_upd_same (ws s) i w (wset w (Busy y) (w_k w) (w_out w)) Hn) as [E1 E2].
+    { unfold owes, wset; simpl. rewrite Hst. reflexivity. }
+    exists pend'. rewrite E1, E2. split; auto.
+    destruct Hp as [Hp | [Hp1 Hp2]]; [discriminate|]. right. split; auto.
+    rewrite upd_nil_iff. auto.
+  - rewrite Htq in Hq. symmetry in Hq. apply tq_head_stop in Hq.
+    destruct Hq as (-> & k' & Hk & ->). exists []. split; auto. simpl. f_equal.
+    pose proof (owing_upd (ws s) i w (wset w (Dying C0) (w_k w) (w_out w)) Hn) as H.
+    unfold owes at 1 2 in H. unfold wset in H. simpl in H. rewrite Hst in H. unfold wset. lia.
+  - match goal with |- context [upd (ws s) i ?w'] =>
+                    destruct (tq_upd_same (ws s) i w w' Hn) as [E1 E2] end.
+    { unfold owes, wset; simpl. rewrite Hst.
+      destruct (retire_now (c_max cfg) (S (w_k w))); reflexivity. }
+    exists pend. rewrite E1, E2. split; auto.
+    destruct Hp as [Hp | [Hp1 Hp2]]; auto. right. split; auto. rewrite upd_nil_iff. auto.
+  - match goal with |- context [upd (ws s) i ?w'] =>
+                    destruct (tq_upd_same (ws s) i w w' Hn) as [E1 E2] end.
+    { unfold owes, wset; simpl. reflexivity. }
+    exists pend. rewrite E1, E2. split; auto.
+    destruct Hp as [Hp | [Hp1 Hp2]]; auto. right. split; auto. rewrite upd_nil_iff. auto.
+  - match goal with |- context [upd (ws s) i ?w'] =>
+                    destruct (tq_upd_same (ws s) i w w' Hn) as [E1 E2] end.
+    { unfold owes, wset; simpl. rewrite Hst. destruct c; reflexivity. }
+    exists pend. rewrite E1, E2. split; auto.
+    destruct Hp as [Hp | [Hp1 Hp2]]; auto. right. split; auto. rewrite upd_nil_iff. auto.
+  - exists pend. rewrite owing_map, forallb_map_same, map_nil_iff; auto using owes_reap.
+    apply Forall_forall; intros w _. apply owes_reap.
+  - exists pend. rewrite owing_map, forallb_map_Forall, map_nil_iff; auto.
+    + eapply Forall_impl; [|exact HW]. intros w Hw. apply owes_restart; auto.
+    + eapply Forall_impl; [|exact HW]. intros w Hw. apply owes_restart; auto.
+Qed.
+
+Lemma pool_empty_nth : forall l i w, pool_empty l = true -> nth_error l i = Some w -> w_in w = false.
+Proof.
+  intros l i w H Hn. pose proof (forallb_nth_error _ _ _ _ _ H Hn) as E. simpl in E.
+  destruct (w_in w); auto; discriminate.
+Qed.
+
+Lemma pool_empty_reap : forall l, pool_empty l = true -> pool_empty (map reap_w l) = true.
+Proof.
+  unfold pool_empty. induction l as [|h t IH]; simpl; intros H; auto.
+  apply andb_true_iff in H. destruct H as [Ha Hb]. rewrite IH by assumption.
+  unfold reap_w. destruct (w_in h) eqn:E; simpl in *; try discriminate. rewrite E. reflexivity.
+Qed.
+
+Lemma pool_empty_upd : forall l i w w',
+  nth_error l i = Some w -> w_in w' = w_in w -> pool_empty (upd l i w') = pool_empty l.
+Proof.
+  intros l i w w' Hn E. unfold pool_empty. eapply forallb_upd_same; eauto. simpl. rewrite E. reflexivity.
+Qed.
+
+(* once every slot has left the pool, no worker step is enabled *)
+Lemma pool_empty_quiet : forall s i w,
+  Forall wok (ws s) -> pool_empty (ws s) = true -> nth_error (ws s) i = Some w ->
+  w_st w = Exited C0 /\ w_out w = [].
+Proof.
+  intros s i w HW HP Hn. pose proof (pool_empty_nth _ _ _ HP Hn) as Ein.
+  destruct (Forall_nth_error _ _ _ _ _ HW Hn) as (H1 & H2 & _).
+  destruct (H2 Ein) as [E _]. split; auto. eapply H1; eauto.
+Qed.
+
+Lemma step_drain : forall s l s', Forall wok (ws s) -> drain_ok s -> step cfg s l s' -> drain_ok s'.
+Proof.
+  intros s l s' HW HD HS. unfold drain_ok in *.
+  destruct HS as [s i w y q Hn Hst Htq | s i w q Hn Hst Htq | s i w y Hn Hst | s i w r o Hn Ho
+                 | s i w c Hn Hst Hex | s r q Hpc Hdq | s Hpc Hdq | s obs Hpc | s r Hpc Hg Hok
+                 | s r Hpc Hg Htol Hf | s Hpc Hg | s Hpc Hb | s Hpc Hb]; simpl; intros Hne Har;
+    try (destruct (HD Hne Har) as [HP HQ];
+         destruct (pool_empty_quiet s i w HW HP Hn) as [E1 E2]; congruence);
+    try (assert (Hne' : ppc s <> AtGet) by (rewrite Hpc; discriminate);
+         destruct (HD Hne' Har) as [HP HQ]).
+  - split; auto. intros; discriminate.
+  - split; auto.
+  - split; auto. apply pool_empty_reap; auto.
+  - split; auto.
+  - split; auto.
+  - split; auto.
+  - split; auto.
+  - congruence.
+Qed.
+
+Lemma step_done : forall s l s', done_ok s -> step cfg s l s' -> done_ok s'.
+Proof.
+  intros s l s' HD HS. unfold done_ok in *.
+  destruct HS as [s i w y q Hn Hst Htq | s i w q Hn Hst Htq | s i w y Hn Hst | s i w r o Hn Ho
+                 | s i w c Hn Hst Hex | s r q Hpc Hdq | s Hpc Hdq | s obs Hpc | s r Hpc Hg Hok
+                 | s r Hpc Hg Htol Hf | s Hpc Hg | s Hpc Hb | s Hpc Hb]; simpl; intros Hd;
+    try discriminate; auto;
+    rewrite (pool_empty_upd (ws s) i w _ Hn) by reflexivity; auto.
+Qed.
+
+Lemma step_inv : forall s l s', PInv s -> step cfg s l s' -> PInv s'.
+Proof.
+  intros s l s' [H1 H2 H3 H4 H5 H6 H7] HS. constructor.
+  - intros x. rewrite (step_cnt s l s' H4 H5 HS x). apply H1.
+  - eapply step_pay; eauto.
+  - eapply step_tq; eauto.
+  - eapply step_w; eauto.
+  - eapply step_got; eauto.
+  - eapply step_drain; eauto.
+  - eapply step_done; eauto.
+Qed.
+
+(* ------------------------------------------------------------------------------------------------ *)
+(* Initial state, reachability *)
+
+Lemma flat_map_repeat_nil : forall A B (g : A -> list B) a n, g a = [] -> flat_map g (repeat a n) = [].
+Proof. induction n; simpl; intros H; auto. rewrite H, IHn; auto. Qed.
+
+Lemma pending_init : forall ids p, pending_ids (map Inv ids ++ repeat Stop p) = ids.
+Proof.
+  unfold pending_ids. induction ids as [|h t IH]; simpl; intros p.
+  - apply flat_map_repeat_nil. reflexivity.
+  - rewrite IH. reflexivity.
+Qed.
+
+Lemma owing_repeat_fresh : forall p, owing (repeat fresh_worker p) = p.
+Proof. unfold owing. induction p; simpl; auto. Qed.
+
+Lemma forallb_repeat : forall A (f : A -> bool) a n, f a = true -> forallb f (repeat a n) = true.
+Proof. induction n; simpl; intros H; auto. rewrite H, IHn; auto. Qed.
+
+Hypothesis wf : wf_cfg cfg = true.
+
+Lemma init_inv : PInv (init cfg).
+Proof.
+  constructor.
+  - intros x. unfold total, init; simpl. rewrite pending_init.
+    rewrite !flat_map_repeat_nil by reflexivity. simpl. reflexivity.
+  - unfold pay_ok, in_flight, outbox_results, init; simpl.
+    rewrite flat_map_repeat_nil by reflexivity. constructor.
+  - exists (c_ids cfg). unfold init; simpl. rewrite owing_repeat_fresh. split; auto.
+    unfold wf_cfg in wf. destruct (c_ids cfg) as [|a l]; auto. right. split.
+    + apply forallb_repeat. reflexivity.
+    + destruct (c_pool cfg); simpl in *; discriminate.
+  - unfold init; simpl. apply Forall_forall. intros w Hin. apply repeat_spec in Hin. subst w.
+    repeat split; simpl; intros; discriminate.
+  - unfold got_ok, init; simpl. reflexivity.
+  - unfold drain_ok, init; simpl. intros H; congruence.
+  - unfold done_ok, init; simpl. discriminate.
+Qed.
+
+Lemma reachable_inv : forall s, reachable cfg s -> PInv s.
+Proof.
+  intros s H. induction H as [|s l s' HR IH HE].
+  - apply init_inv.
+  - apply (step_inv s l s' IH). apply exec_step. exact HE.
+Qed.
+
+(* ------------------------------------------------------------------------------------------------ *)
+(* Main results *)
+
+Lemma conservation : forall s, reachable cfg s -> Permutation (accounted s) (c_ids cfg).
+Proof.
+  intros s H. apply (Permutation_count_occ Nat.eq_dec). intros x. rewrite cnt_accounted.
+  apply (inv_cnt s (reachable_inv s H)).
+Qed.
+
+Lemma no_id_twice : forall s, reachable cfg s -> NoDup (c_ids cfg) -> NoDup (accounted s).
+Proof.
+  intros s H ND. eapply Permutation_NoDup; [|exact ND]. apply Permutation_sym, conservation; auto.
+Qed.
+
+Lemma payload : forall s, reachable cfg s ->
+  Forall (fun r => snd r = c_f cfg (fst r)) (delivered s ++ in_flight s).
+Proof. intros s H. apply (inv_pay s (reachable_inv s H)). Qed.
+
+Lemma brk_safe_sound : forall b pe ar qe,
+  brk_safe b = true -> eval_brk b pe ar qe = true -> pe = true /\ ar = true /\ qe = true.
+Proof.
+  intros b pe ar qe H E. unfold brk_safe in H. rewrite forallb_forall in H.
+  specialize (H (pe, ar, qe)). simpl in H. rewrite E in H.
+  assert (Hin : In (pe, ar, qe) all3) by (destruct pe, ar, qe; simpl; tauto).
+  specialize (H Hin). destruct pe, ar, qe; simpl in H; try discriminate; auto.
+Qed.
+
+Lemma all_quiet : forall l,
+  Forall wok l -> pool_empty l = true -> Forall (fun w => w_st w = Exited C0 /\ w_out w = []) l.
+Proof.
+  intros l HW HP. apply Forall_forall. intros w Hin. apply In_nth_error in Hin. destruct Hin as [i Hn].
+  pose proof (pool_empty_nth _ _ _ HP Hn) as Ein.
+  destruct (Forall_nth_error _ _ _ _ _ HW Hn) as (H1 & H2 & _).
+  destruct (H2 Ein) as [E _]. split; auto. eapply H1; eauto.
+Qed.
+
+Lemma quiet_facts : forall l,
+  Forall (fun w => w_st w = Exited C0 /\ w_out w = []) l ->
+  outbox_results l = [] /\ busy_ids l = [] /\ owing l = 0 /\ (l <> [] -> forallb owes l = false).
+Proof.
+  unfold outbox_results, busy_ids, owing. induction l as [|h t IH]; simpl; intros H.
+  - repeat split; auto. intros C; congruence.
+  - inversion H as [|? ? [E1 E2] Ht]; subst. destruct (IH Ht) as (A & B & C & D).
+    assert (Eo : owes h = false) by (unfold owes; rewrite E1; reflexivity).
+    rewrite E2, A, B, Eo, E1. simpl. repeat split; auto.
+Qed.
+
+Lemma terminal_state : forall s,
+  brk_safe (c_brk cfg) = true -> reachable cfg s -> ppc s = Done ->
+  in_flight s = [] /\ busy_ids (ws s) = [] /\ pending_ids (taskq s) = [].
+Proof.
+  intros s HB HR Hd. destruct (reachable_inv s HR) as [H1 H2 H3 H4 H5 H6 H7].
+  destruct (brk_safe_sound _ _ _ _ HB (H7 Hd)) as (Epe & Ear & Eqe).
+  assert (Hne : ppc s <> AtGet) by (rewrite Hd; discriminate).
+  destruct (H6 Hne Ear) as [_ HQ]. specialize (HQ Eqe).
+  unfold got_ok in H5. rewrite Hd in H5.
+  destruct (quiet_facts _ (all_quiet _ H4 Epe)) as (A & B & C & D).
+  destruct H3 as (pend & Hq & Hp). rewrite C in Hq. simpl in Hq. rewrite app_nil_r in Hq.
+  assert (pend = []) as ->.
+  { destruct Hp as [Hp | [Hp1 Hp2]]; auto. rewrite (D Hp2) in Hp1. discriminate. }
+  unfold in_flight. rewrite H5, HQ, A, Hq. simpl. auto.
+Qed.
+
+Lemma terminal_complete : forall s,
+  brk_safe (c_brk cfg) = true -> reachable cfg s -> ppc s = Done ->
+  Permutation (map fst (delivered s)) (c_ids cfg).
+Proof.
+  intros s HB HR Hd. pose proof (conservation s HR) as P.
+  destruct (terminal_state s HB HR Hd) as (A & B & C).
+  unfold accounted in P. rewrite A, B, C in P. simpl in P. rewrite app_nil_r in P. exact P.
+Qed.
+
+Lemma abort_sound : forall s i,
+  reachable cfg s -> ppc s = Aborted i ->
+  c_tol cfg = false /\ is_fail (c_f cfg i) = true /\
+  forall x, cnt (i :: map fst (delivered s)) x <= cnt (c_ids cfg) x.
+Proof.
+  intros s i HR Ha. destruct (reachable_inv s HR) as [H1 H2 H3 H4 H5 H6 H7].
+  unfold got_ok in H5. rewrite Ha in H5. destruct H5 as (r & Hg & Hi & Ht & Hf).
+  apply pay_split in H2. destruct H2 as (_ & Pg & _). rewrite Hg in Pg. simpl in Pg.
+  inversion Pg as [|? ? Hr _]; subst. rewrite Hr in Hf. repeat split; auto.
+  intros x. specialize (H1 x). unfold total in H1. rewrite Hg in H1. simpl in H1. simpl.
+  destruct (Nat.eq_dec (fst r) x); rlia.
+Qed.
+
+End Invariant.
+
+(* ================================================================================================ *)
+(* The boolean predicate P_C12 *)
+
+Lemma ms_eqb_true : forall a b, (forall x, cnt a x = cnt b x) -> ms_eqb a b = true.
+Proof. intros a b H. unfold ms_eqb. apply forallb_forall. intros x _. apply Nat.eqb_eq. auto. Qed.
+
+Lemma ms_subb_true : forall a b, (forall x, cnt a x <= cnt b x) -> ms_subb a b = true.
+Proof. intros a b H. unfold ms_subb. apply forallb_forall. intros x _. apply Nat.leb_le. auto. Qed.
+
+Lemma ms_eqb_sound : forall a b, ms_eqb a b = true -> Permutation a b.
+Proof.
+  intros a b H. apply (Permutation_count_occ Nat.eq_dec). intros x.
+  unfold ms_eqb in H. rewrite forallb_forall in H.
+  destruct (in_dec Nat.eq_dec x (a ++ b)) as [Hin | Hout].
+  - apply Nat.eqb_eq. auto.
+  - rewrite in_app_iff in Hout.
+    rewrite (proj1 (count_occ_not_In Nat.eq_dec a x)) by tauto.
+    rewrite (proj1 (count_occ_not_In Nat.eq_dec b x)) by tauto. reflexivity.
+Qed.
+
+Lemma val_eqb_refl : forall v, val_eqb v v = true.
+Proof. destruct v; simpl; apply Nat.eqb_refl. Qed.
+
+Lemma val_eqb_eq : forall a b, val_eqb a b = true -> a = b.
+Proof. destruct a, b; simpl; intros H; try discriminate; apply Nat.eqb_eq in H; congruence. Qed.
+
+Lemma payload_ok_true : forall f d, Forall (fun r : nat * val => snd r = f (fst r)) d -> payload_ok f d = true.
+Proof.
+  intros f d H. unfold payload_ok. apply forallb_forall. intros r Hin.
+  rewrite Forall_forall in H. rewrite (H r Hin). apply val_eqb_refl.
+Qed.
+
+(* P_C12 on a completed call means: the delivered list is a permutation of the reference *)
+Lemma P_C12_completed_spec : forall x d,
+  P_C12 x (Completed d) = true -> Permutation d (spec_C12 x).
+Proof.
+  intros x d H. simpl in H. apply andb_true_iff in H. destruct H as [H1 H2].
+  apply ms_eqb_sound in H1. unfold spec_C12.
+  assert (E : d = map (fun i => (i, in_f x i)) (map fst d)).
+  { unfold payload_ok in H2. rewrite forallb_forall in H2. clear H1.
+    induction d as [|[i v] t IH]; simpl; auto. f_equal.
+    - f_equal. apply val_eqb_eq. apply (H2 (i, v)). left; auto.
+    - apply IH. intros r Hr. apply H2. right; auto. }
+  rewrite E at 1. apply Permutation_map. exact H1.
+Qed.
+
+Lemma pool_holds : forall cfg,
+  (forall out, c_exit cfg out = true -> out = []) -> wf_cfg cfg = true -> brk_safe (c_brk cfg) = true ->
+  forall s o, reachable cfg s -> outcome_of_state s = Some o ->
+  P_C12 (c_ids cfg, c_tol cfg, c_f cfg) o = true.
+Proof.
+  intros cfg HL HW HB s o HR Ho. unfold outcome_of_state in Ho.
+  pose proof (payload cfg HL HW s HR) as HP. apply Forall_app in HP. destruct HP as [HP _].
+  destruct (ppc s) eqn:Epc; try discriminate; injection Ho as Ho; subst o; simpl;
+    unfold in_ids, in_tol, in_f; simpl.
+  - apply andb_true_iff; split.
+    + apply ms_eqb_true. apply (Permutation_count_occ Nat.eq_dec).
+      apply (terminal_complete cfg HL HW s HB HR Epc).
+    + apply payload_ok_true; auto.
+  - destruct (abort_sound cfg HL HW s i HR Epc) as (A & B & C).
+    rewrite A, B. simpl. apply andb_true_iff; split.
+    + apply ms_subb_true. exact C.
+    + apply payload_ok_true; auto.
+Qed.
+
+(* "single process way" *)
+Lemma seq_run_spec : forall tol f ids,
+  match seq_run tol f ids with
+  | Completed d => d = map (fun i => (i, f i)) ids
+  | Raised j d => tol = false /\ is_fail (f j) = true /\
+                  exists rest, ids = map fst d ++ j :: rest /\ d = map (fun i => (i, f i)) (map fst d)
+  | Other _ => False
+  end.
+Proof.
+  intros tol f. induction ids as [|i t IH]; simpl; auto.
+  destruct (negb tol && is_fail (f i)) eqn:E.
+  - apply andb_true_iff in E. destruct E as [E1 E2]. destruct tol; try discriminate.
+    repeat split; auto. exists t. auto.
+  - destruct (seq_run tol f t) as [d | j d | d]; simpl; auto.
+    + congruence.
+    + destruct IH as (A & B & rest & C & D). repeat split; auto. exists rest. simpl. split; congruence.
+Qed.
+
+Lemma map_fst_spec : forall (f : nat -> val) ids, map fst (map (fun i => (i, f i)) ids) = ids.
+Proof. intros. rewrite map_map. simpl. apply map_id. Qed.
+
+Lemma seq_holds : forall tol f ids, P_C12 (ids, tol, f) (seq_run tol f ids) = true.
+Proof.
+  intros tol f ids. pose proof (seq_run_spec tol f ids) as H.
+  destruct (seq_run tol f ids) as [d | j d | d]; simpl; unfold in_ids, in_tol, in_f; simpl.
+  - subst d. rewrite map_fst_spec. apply andb_true_iff; split.
+    + apply ms_eqb_true; auto.
+    + apply payload_ok_true. apply Forall_forall. intros r Hr. apply in_map_iff in Hr.
+      destruct Hr as (i & <- & _). reflexivity.
+  - destruct H as (A & B & rest & C & D). rewrite A, B. simpl. apply andb_true_iff; split.
+    + apply ms_subb_true. intros x. rewrite C. rewrite cnt_app. simpl.
+      destruct (Nat.eq_dec j x); lia.
+    + apply payload_ok_true. rewrite D. apply Forall_forall. intros r Hr. apply in_map_iff in Hr.
+      destruct Hr as (i & <- & _). reflexivity.
+  - contradiction.
+Qed.
+
+(* ================================================================================================ *)
+(* Concrete schedules *)
+
+Lemma run_reachable : forall cfg ls s s', reachable cfg s -> run cfg s ls = Some s' -> reachable cfg s'.
+Proof.
+  intros cfg. induction ls as [|l t IH]; simpl; intros s s' HR H.
+  - injection H as H; subst; auto.
+  - destruct (exec cfg s l) as [s1|] eqn:E; try discriminate.
+    eapply IH; [|exact H]. eapply R_step; eauto.
+Qed.
+
+Definition ex_cfg (ids : list nat) (p m : nat) (raising : list nat) (brk : bexpr)
+           (ex : list result -> bool) : config :=
+  Cfg ids p m true (std_f raising) brk ex.
+
+(* the loop as written: two ids, two workers, both finish and exit before the parent's first get *)
+Definition sched_lost : list label :=
+  [LTake 0 0; LTake 1 1; LFinish 0 0; LFinish 1 1; LFlush 0; LFlush 1; LStop 0; LStop 1; LExit 0; LExit 1;
+   LGet 0; LReap [(0, C0); (1, C0)]; LDeliver 0; LBreak].
+
+(* the schedule of the real-code reproduction (DESIGN 7, F1): 8 ids, 3 workers, the consumer is slow
+   with the first result; the second get is followed by a reaping that empties the pool *)
+Definition sched_f1 : list label :=
+  [LTake 0 0; LTake 1 1; LTake 2 2; LFinish 0 0; LFlush 0;
+   LGet 0; LReap []; LDeliver 0;
+   LFinish 1 1; LFlush 1; LFinish 2 2; LFlush 2; LTake 0 3; LTake 1 4; LTake 2 5;
+   LFinish 0 3; LFlush 0; LFinish 1 4; LFlush 1; LFinish 2 5; LFlush 2; LTake 0 6; LTake 1 7;
+   LStop 2; LExit 2; LFinish 0 6; LFlush 0; LFinish 1 7; LFlush 1; LStop 0; LStop 1; LExit 0; LExit 1;
+   LLoop; LGet 1; LReap [(0, C0); (1, C0); (2, C0)]; LDeliver 1; LBreak].
+
+(* `if not pool and queue_empty: break`: the get times out, then both workers put and exit before
+   the reaping *)
+Definition sched_naive : list label :=
+  [LGetEmpty; LTake 0 0; LTake 1 1; LFinish 0 0; LFinish 1 1; LFlush 0; LFlush 1; LStop 0; LStop 1;
+   LExit 0; LExit 1; LReap [(0, C0); (1, C0)]; LNoDeliver; LBreak].
+
+(* repaired loop, but exit codes may overtake the feeder thread *)
+Definition sched_lawless : list label :=
+  [LTake 0 0; LTake 1 1; LFinish 0 0; LFinish 1 1; LStop 0; LStop 1; LExit 0; LExit 1;
+   LGetEmpty; LReap [(0, C0); (1, C0)]; LNoDeliver; LLoop; LGetEmpty; LReap []; LNoDeliver; LBreak].
+
+(* repaired loop: three ids, two workers, max_tasks = 1 (every task retires its worker), id 1 fails *)
+Definition sched_ok : list label :=
+  [LTake 0 0; LTake 1 1; LFinish 0 0; LFlush 0; LExit 0; LFinish 1 1; LFlush 1; LExit 1;
+   LGet 0; LReap [(0, C9); (1, C9)]; LDeliver 0; LLoop;
+   LTake 0 2; LFinish 0 2; LFlush 0; LExit 0; LStop 1; LExit 1;
+   LGet 1; LReap [(0, C9); (1, C0)]; LDeliver 1; LLoop;
+   LStop 0; LExit 0;
+   LGet 2; LReap [(0, C0)]; LDeliver 2; LLoop;
+   LGetEmpty; LReap []; LNoDeliver; LBreak].
+
+Definition final_of (cfg : config) (ls : list label) : option (pc * list result * list result) :=
+  match run cfg (init cfg) ls with
+  | Some s => Some (ppc s, delivered s, in_flight s)
+  | None => None
+  end.
+
+Lemma sched_lost_final :
+  final_of (ex_cfg [0; 1] 2 25 [] brk_as_written lawful_exit) sched_lost
+  = Some (Done, [(0, VOk 3)], [(1, VOk 10)]).
+Proof. vm_compute. reflexivity. Qed.
+
+Lemma sched_f1_final :
+  final_of (ex_cfg (seq 0 8) 3 25 [] brk_as_written lawful_exit) sched_f1
+  = Some (Done, [(0, VOk 3); (1, VOk 10)],
+          [(2, VOk 17); (3, VOk 24); (4, VOk 31); (5, VOk 38); (6, VOk 45); (7, VOk 52)]).
+Proof. vm_compute. reflexivity. Qed.
+
+Lemma sched_naive_final :
+  final_of (ex_cfg [0; 1] 2 25 [] brk_naive lawful_exit) sched_naive
+  = Some (Done, [], [(0, VOk 3); (1, VOk 10)]).
+Proof. vm_compute. reflexivity. Qed.
+
+Lemma sched_lawless_final :
+  final_of (ex_cfg [0; 1] 2 25 [] brk_fixed (fun _ => true)) sched_lawless
+  = Some (Done, [], [(0, VOk 3); (1, VOk 10)]).
+Proof. vm_compute. reflexivity. Qed.
+
+Lemma sched_ok_final :
+  final_of (ex_cfg [0; 1; 2] 2 1 [1] brk_fixed lawful_exit) sched_ok
+  = Some (Done, [(0, VOk 3); (1, VFail 18); (2, VOk 17)], []).
+Proof. vm_compute. reflexivity. Qed.
+
+(* none of the repaired-loop guarantees is available for these loops: the schedules end in Done *)
+Lemma refuted_by : forall cfg ls d fl,
+  final_of cfg ls = Some (Done, d, fl) ->
+  exists s, reachable cfg s /\ ppc s = Done /\ delivered s = d /\ in_flight s = fl.
+Proof.
+  intros cfg ls d fl H. unfold final_of in H.
+  destruct (run cfg (init cfg) ls) as [s|] eqn:E; try discriminate.
+  injection H as H1 H2 H3. exists s. repeat split; auto.
+  eapply run_reachable; [apply R_init | exact E].
 Qed.
